@@ -90,21 +90,44 @@ func doMatchMatches(expression *grammar.MatchExpression, value reflect.Value) (b
 		return false, fmt.Errorf("Value of type %s is not convertible to []byte", value.Type())
 	}
 
-	var re *regexp.Regexp
-	var ok bool
-	if expression.Value.Converted != nil {
-		re, ok = expression.Value.Converted.(*regexp.Regexp)
-	}
+	// The regular expression is compiled when the evaluator is created (see
+	// compileRegexps). The syntax tree is shared by every concurrent call of
+	// Evaluate, so it must not be written to here.
+	re, ok := expression.Value.Converted.(*regexp.Regexp)
 	if !ok || re == nil {
 		var err error
 		re, err = regexp.Compile(expression.Value.Raw)
 		if err != nil {
 			return false, fmt.Errorf("Failed to compile regular expression %q: %v", expression.Value.Raw, err)
 		}
-		expression.Value.Converted = re
 	}
 
 	return re.Match(value.Convert(byteSliceTyp).Interface().([]byte)), nil
+}
+
+// compileRegexps walks the syntax tree once, before it is shared, and stores
+// the compiled form of every valid regular expression used by a matches or
+// not matches operator. Invalid ones are left alone and keep being reported
+// as an error when they are evaluated.
+func compileRegexps(ast grammar.Expression) {
+	switch node := ast.(type) {
+	case *grammar.UnaryExpression:
+		compileRegexps(node.Operand)
+	case *grammar.BinaryExpression:
+		compileRegexps(node.Left)
+		compileRegexps(node.Right)
+	case *grammar.CollectionExpression:
+		compileRegexps(node.Inner)
+	case *grammar.MatchExpression:
+		if node.Value == nil {
+			return
+		}
+		if node.Operator == grammar.MatchMatches || node.Operator == grammar.MatchNotMatches {
+			if re, err := regexp.Compile(node.Value.Raw); err == nil {
+				node.Value.Converted = re
+			}
+		}
+	}
 }
 
 func doMatchEqual(expression *grammar.MatchExpression, value reflect.Value) (bool, error) {
